@@ -25,6 +25,10 @@ pub struct State {
 }
 
 static ON: AtomicBool = AtomicBool::new(false);
+/// one-shot action performed by the NEXT virtual clock read, before it returns (e.g. "the daemon publishes now")
+static ON_NEXT_READ: Mutex<Option<Box<dyn FnOnce() + Send>>> = Mutex::new(None);
+pub fn on_next_read(f: Box<dyn FnOnce() + Send>) { *ON_NEXT_READ.lock().unwrap() = Some(f); }
+pub fn cancel_on_next_read() -> bool { ON_NEXT_READ.lock().unwrap().take().is_some() }
 static STATE: Mutex<Option<State>> = Mutex::new(None);
 
 pub fn enable() {
@@ -81,6 +85,9 @@ pub fn log_event(ev: i32) {
 pub unsafe extern "C" fn clock_gettime(clk: libc::clockid_t, ts: *mut libc::timespec) -> libc::c_int {
     if !ON.load(Ordering::SeqCst) || clk < 0 || clk >= 16 {
         return libc::syscall(libc::SYS_clock_gettime, clk as libc::c_long, ts) as libc::c_int;
+    }
+    if let Ok(mut h) = ON_NEXT_READ.try_lock() {
+        if let Some(f) = h.take() { drop(h); f(); }
     }
     let mut g = match STATE.try_lock() {
         Ok(g) => g,
